@@ -187,7 +187,16 @@ def check(ctx):
     da = ctx.need(repo.cls("bromelia.setup.DiameterAssociation"), "DiameterAssociation")
     sq = ctx.need(da.methods.get("send_message_from_queue"), "DiameterAssociation.send_message_from_queue")
     src = ast.unparse(sq)
-    has_dump = "stream += msg.dump()" in src or "+= msg.dump()" in src
+    # the message taken from the queue is serialised in this very call: `acc += <m>.dump()` (directly, or through a local bound
+    # to `<m>.dump()`) where <m> is what `self._send_messages.get()` returned
+    _got = {s_.targets[0].id for s_ in ast.walk(sq) if isinstance(s_, ast.Assign) and len(s_.targets) == 1 and isinstance(s_.targets[0], ast.Name)
+            and isinstance(s_.value, ast.Call) and call_name(s_.value).endswith("_send_messages.get")}
+    _dl = {}
+    for s_ in ast.walk(sq):
+        if isinstance(s_, ast.Assign) and len(s_.targets) == 1 and isinstance(s_.targets[0], ast.Name):
+            _dl.setdefault(s_.targets[0].id, []).append(ast.unparse(s_.value))
+    _isd = lambda e: any(ast.unparse(e) == f"{m_}.dump()" or (isinstance(e, ast.Name) and _dl.get(e.id) == [f"{m_}.dump()"]) for m_ in _got)
+    has_dump = any(isinstance(s_, ast.AugAssign) and isinstance(s_.op, ast.Add) and _isd(s_.value) for s_ in ast.walk(sq))
     threads = any("Thread" in call_name(c) for c in fn_calls(sq)) or any("Thread" in call_name(c) for c in fn_calls(sm))
     ctx.decide(has_dump and not threads, "R-MUSTPASS/synchronous-flush", f"{da.qual}.send_message_from_queue", da.where(sq),
                "dequeued messages are serialised (dump) in the same call, no thread hand-off",
